@@ -1,8 +1,8 @@
 (** C02 -- property theorems only. *)
-From Coq Require Import Ascii String List Bool Arith ZArith NArith.
+From Coq Require Import Ascii String List Bool Arith ZArith NArith QArith Qabs.
 From PTBase Require Import Exn PyStr PyNum PyVal Fmt FixedFormat.
 From Gen Require Import GenTables.
-From P Require Import Main.
+From P Require Import Main Digits ReadBack Round QVal FieldRB.
 Import ListNotations.
 
 (** finite obligation over the regenerated tables: every width non-zero, precision
@@ -38,3 +38,90 @@ Print Assumptions overflow_is_loud_or_local.
 Theorem absent_value_is_blank : forall f, fmt_field f XNone = Ok (spaces (width f)).
 Proof. exact none_is_blank. Qed.
 Print Assumptions absent_value_is_blank.
+
+(** ** value level: parsing the written columns returns the value that was written.
+    [rf_ok rf]: rf is the default read function or the Fortran one (t2incon).
+    Definitions: FieldRB.v ([reads_back], [real_rb], [half_unit]), QVal.v ([dec_val], [xval]). *)
+
+(** int('%wd' % z) = z: every width (even one the text overflows), every integer *)
+Theorem int_text_read_back : forall w z, py_int_opt (fmt_int w z) = Some z.
+Proof. exact py_int_fmt_int. Qed.
+Print Assumptions int_text_read_back.
+
+(** a 'd' field the writer accepted parses back to exactly the integer written *)
+Theorem int_read_back : forall rf f z s, rf_ok rf -> ft f = Td -> fmt_field f (XInt z) = Ok s -> rf Td s = RInt z.
+Proof. exact int_field_read_back. Qed.
+Print Assumptions int_read_back.
+
+(** an 's' field the writer accepted holds the name justified to exactly the field width
+    (right for w > 0, left for w < 0); the reader delivers that text with trailing newlines
+    removed and the PADDING KEPT (default_read_str is x.rstrip('\n')): for a name without
+    newline exactly the justified text, whose str.strip() is the name when the name has
+    no whitespace *)
+Theorem str_read_back : forall rf f x s, rf_ok rf -> ft f = Ts -> fmt_field f (XStr x) = Ok s ->
+  s = pad (fw f) x /\ (length x <= width f)%nat /\ length s = width f /\
+  rf Ts s = RStr (rstrip_c newline (pad (fw f) x)) /\
+  (forallb (fun c => negb (ceqb c newline)) x = true -> rf Ts s = RStr (pad (fw f) x)) /\
+  (forallb (fun c => negb (is_space c)) x = true -> strip s = x).
+Proof. exact str_field_read_back. Qed.
+Print Assumptions str_read_back.
+
+(** an absent value is written as blanks and parses back to None in every numeric and
+    skip field; in an 's' field the reader delivers the blank string itself *)
+Theorem none_read_back : forall rf f, rf_ok rf ->
+  fmt_field f Fmt.XNone = Ok (spaces (width f)) /\
+  rf (ft f) (spaces (width f)) = match ft f with Ts => RStr (spaces (width f)) | _ => RNone end.
+Proof. exact none_field_read_back. Qed.
+Print Assumptions none_read_back.
+
+(** float('%w.qe' % x) for the double x = (-1)^ng * m * 2^e, any width, any precision
+    q >= 0: a decimal (-1)^ng * M * 10^E whose mantissa M has exactly q+1 digits (x <> 0),
+    within half a unit of its last printed digit of x (over Q); 2- and 3-digit exponents
+    and both signs included *)
+Theorem real_e_read_back : forall w q ng m e, (0 <= q)%Z -> (0 <= m)%Z ->
+  exists M E, py_float_opt (fmt_e w q ng m e) = Some (Fin ng M E) /\
+    (Qabs (dec_val ng M E - xval ng m e) <= half_unit E)%Q /\
+    (m <> 0%Z -> (10 ^ q <= Z.of_N M < 10 ^ (q + 1))%Z) /\ (m = 0%Z -> M = 0%N /\ E = (- q)%Z).
+Proof. exact e_read_back. Qed.
+Print Assumptions real_e_read_back.
+
+(** float('%w.qf' % x): the decimal M * 10^-q within half of 10^-q of x *)
+Theorem real_f_read_back : forall w q ng m e, (0 <= q)%Z -> (0 <= m)%Z ->
+  exists M, py_float_opt (fmt_f w q ng m e) = Some (Fin ng M (- q)) /\
+    (Qabs (dec_val ng M (- q) - xval ng m e) <= half_unit (- q))%Q.
+Proof. exact f_read_back. Qed.
+Print Assumptions real_f_read_back.
+
+(** a real field the writer accepted (possibly after fit_value reduced the precision to
+    some q below the field's, q = the field's precision whenever the full-precision text
+    fits) parses back to the decimal printed at precision q, within half a unit of its
+    last printed digit of the value written *)
+Theorem real_read_back : forall rf f ng m e s, rf_ok rf -> (ft f = Te \/ ft f = Tf) -> (0 <= prec f)%Z -> (0 <= m)%Z ->
+  fmt_field f (XReal ng m e) = Ok s -> real_rb f (XReal ng m e) ng m e (rf (ft f) s).
+Proof. exact real_field_read_back. Qed.
+Print Assumptions real_read_back.
+
+(** every spec, every value, either read function *)
+Theorem field_reads_back : forall rf f v s, rf_ok rf -> spec_ok f -> value_wf v ->
+  fmt_field f v = Ok s -> reads_back f v (rf (ft f) s).
+Proof. exact field_read_back. Qed.
+Print Assumptions field_reads_back.
+
+(** record_read_back: for every record kind of the regenerated tables and ANY values, if
+    the writer returns a line then parsing it (whatever follows on the line) returns at
+    every written position the read-back of that position's own value: nothing displaced *)
+Theorem record_read_back : forall tn t rn names specs rf vals l rest,
+  In (tn, t) all_tables -> In (rn, (names, specs)) t ->
+  rf_ok rf -> Forall value_wf vals -> write_fields specs vals = Ok l ->
+  forall i f v, nth_error specs i = Some f -> nth_error vals i = Some v ->
+    exists r, nth_error (parse_string rf specs (concat l ++ rest)%list) i = Some r /\ reads_back f v r.
+Proof. exact table_record_read_back. Qed.
+Print Assumptions record_read_back.
+
+(** the same for any specification list whose real fields have non-negative precision *)
+Theorem record_read_back_any_spec : forall rf specs vals l rest,
+  rf_ok rf -> Forall spec_ok specs -> Forall value_wf vals -> write_fields specs vals = Ok l ->
+  forall i f v, nth_error specs i = Some f -> nth_error vals i = Some v ->
+    exists r, nth_error (parse_string rf specs (concat l ++ rest)%list) i = Some r /\ reads_back f v r.
+Proof. exact record_read_back_gen. Qed.
+Print Assumptions record_read_back_any_spec.
